@@ -16,7 +16,7 @@ from . import common
 PATTERNS = None
 CALLERS = {}       # (pattern, flags) -> name of the mako function that applies it
 # how a subject string reaches the pattern when it is not the template itself
-EMBED = {"_parse_attributes": "<%include file=\"{}\"/>", "adjust_whitespace": "<%\n{}\n%>", "in_multi_line": "<%\n{}\n%>", "_in_multi_line": "<%\n{}\n%>"}
+EMBED = {"__init__": "% {}\n", "_strip_comment": "% {}\n", "_parse_attributes": "<%include file=\"{}\"/>", "adjust_whitespace": "<%\n{}\n%>", "in_multi_line": "<%\n{}\n%>", "_in_multi_line": "<%\n{}\n%>"}
 
 
 def live_patterns(L):
@@ -26,45 +26,12 @@ def live_patterns(L):
     import types
     from .C12_corpus import CORPUS
     from . import realops
-    # the instrumented lexer module compiles through SymRe; use a pristine copy of the module source for the census
-    mod = types.ModuleType("lexer_census")
-    src = open(L.__file__).read()
-    mod.__dict__["__name__"] = "mako.lexer_census"
-    exec(compile(src, L.__file__, "exec"), mod.__dict__)
-    corpus = list(CORPUS.values()) + [realops._C20_CORPUS, "<%text>x</%text>${a | h}\n%% x\n## c\n<%doc>d</%doc>\\\n</%a>", "<%a b='c'/>", "% if x:\n% endif\n",
+    corpus = list(CORPUS.values()) + [realops._C20_CORPUS, "% if x: # c\n% elif y:\n% else:\n% endif\n% for a in b:\n% endfor\n% try:\n% except E:\n% endtry\n% with a as b:\n% endwith\n% while x:\n% endwhile\n", "<%text>x</%text>${a | h}\n%% x\n## c\n<%doc>d</%doc>\\\n</%a>", "<%a b='c'/>", "% if x:\n% endif\n",
                                       "<%include file=\"a${b}c${d}\"/>", "<%\n    x = 'a' # c\n    y = \"\"\"t\"\"\"\n%>"]
     # every regex any mako module applies while these templates are lexed (node constructors and re-margining included), with
-    # the function that applied it: recorded at re's own compile cache
-    used = {}
-    orig_compile = real_re._compile
-    import sys as _sys
-
-    def spy(pattern, flags):
-        if isinstance(pattern, str):
-            f = _sys._getframe(1)
-            caller = None
-            while f is not None:
-                name = f.f_globals.get("__name__", "")
-                if name.startswith("mako.") and name != "mako.lexer_census" or name == "mako.lexer_census":
-                    caller = f.f_code.co_name
-                    break
-                f = f.f_back
-            if caller is not None:
-                used.setdefault((pattern, int(flags) & ~int(real_re.U)), caller)
-        return orig_compile(pattern, flags)
-    real_re._compile = spy
-    try:
-        for t in corpus:
-            try:
-                mod.Lexer(t).parse()
-            except Exception:
-                pass
-    finally:
-        real_re._compile = orig_compile
-    pats = {(k[0], int(k[1] or 0)): "match_reg" for k in mod._regexp_cache}
-    pats[(mod.Lexer._coding_re.pattern, int(mod.Lexer._coding_re.flags & ~real_re.U))] = "decode_raw_stream"
-    for k, caller in used.items():
-        pats.setdefault(k, caller)
+    # the function that applied it: recorded in the real-code child (the mako of this process is instrumented and partly stubbed)
+    from symx import realproc
+    pats = dict(realproc.call("regex_census", corpus))
     CALLERS.update(pats)
     return sorted(pats)
 
